@@ -867,7 +867,8 @@ def consumer_traces(pm: ProtocolModel, while_iters: int = 2) -> list[Trace]:
 
     def h_collect(it, f, sv, a, k, n):
         i = sum(1 for e in it.events if e.kind == "COLLECT") + 1
-        c = it.decide(f"collect#{i}", 3, ["batch", "empty", "refresh-only"])
+        # (the refresh-only outcome is offered for the first collection only: "a call without updates, then any other call" is the history the token rule needs)
+        c = it.decide(f"collect#{i}", 3, ["batch", "empty", "refresh-only"]) if i == 1 else it.decide(f"collect#{i}", 2, ["batch", "empty"])
         if c == 1:
             it.emit("COLLECT", n, n=i, items=[])
             return SeqVal("list", [])
@@ -886,7 +887,9 @@ def consumer_traces(pm: ProtocolModel, while_iters: int = 2) -> list[Trace]:
     def make(it, q, n):
         # what waits in a queue is a synchronous caller's update or a fire-and-forget one (no completion event): the drains must cope with both (mutscan 4: the
         # `if item.completion_event` of a drain replaced by True - None.set() kills the failure handler half-way through, whoever is queued behind stays asleep)
-        sync = it.decide(f"{q}#{n}@{len(it.events)} kind", 2, ["sync", "fire-and-forget"]) == 0
+        # (forked for the first item taken from each queue only: one fire-and-forget item per drain is what the rules need, and every further fork doubles
+        # the paths of a consumer that keeps going - the selftest mutant c06-consumer-continues did not finish)
+        sync = True if n > 1 else it.decide(f"{q}#{n}@{len(it.events)} kind", 2, ["sync", "fire-and-forget"]) == 0
         return new_item(it, f"{q[:2]}#{n}", sync=sync)
 
     def h_api(it, recv, args, kwargs, node):
